@@ -526,20 +526,22 @@ class Zeroconf(QuietLogger):
         awaited since its only called at shutdown.
         """
         # Send Goodbye packets https://datatracker.ietf.org/doc/html/rfc6762#section-10.1
-        out = self.generate_unregister_all_services()
-        while out:
-            for i in range(_REGISTER_BROADCASTS):
-                if i != 0:
-                    await asyncio.sleep(millis_to_seconds(_UNREGISTER_TIME))
-                self.async_send(out)
-            # A registration that was still probing when the goodbyes started
-            # may have completed, and announced its service, while we were
-            # waiting between them: withdraw it as well
+        while True:
             out = self.generate_unregister_all_services()
-        # Goodbyes that are still being sent for services unregistered one
-        # by one must be completed before the caller closes the sockets
-        if self._goodbye_tasks:
-            await asyncio.wait(self._goodbye_tasks)
+            if out:
+                for i in range(_REGISTER_BROADCASTS):
+                    if i != 0:
+                        await asyncio.sleep(millis_to_seconds(_UNREGISTER_TIME))
+                    self.async_send(out)
+            elif self._goodbye_tasks:
+                # Goodbyes that are still being sent for services unregistered
+                # one by one must be completed before the caller closes the sockets
+                await asyncio.wait(self._goodbye_tasks)
+            else:
+                return
+            # A registration that was still probing when we started may have
+            # completed, and announced its service, while we were waiting:
+            # look again and withdraw it as well
 
     def unregister_all_services(self) -> None:
         """Unregister all registered services.
